@@ -360,6 +360,7 @@ func Run(c *core.Ctx) {
 	c.Set("parsed_ok", parsed)
 	c.Set("accepted_by_generate_pipeline", accepted)
 	c.Set("parse_errors_with_position_checked", nPE)
+	c.Set("errors_without_position_not_demanded", stages["parse-error"]-nPE) // e.g. ErrLegacyFileFormat
 	c.Set("expressions_position_checked", nExprChecked)
 	c.Set("name_ranges_checked", nNamed)
 	c.Set("other_ranges_checked", nRange)
